@@ -63,7 +63,16 @@ def handleCuts (args : List String) : String :=
     | none => "bad-hex"
     | some bs =>
       let ns := (cuts.splitOn ",").filterMap String.toNat?
-      " @@ ".intercalate (ns.map fun n => "M " ++ readCut (bs.take n))
+      -- one digest per cut, as the harness layer `rdc` does; `blkc1 <hex> <n>` prints the full answer
+      " @@ ".intercalate (ns.map fun n => digest (("I " ++ readCut (bs.take n)).toUTF8.toList.map UInt8.toNat))
+  | _ => "bad-op"
+
+def handleCut1 (args : List String) : String :=
+  match args with
+  | [h, n] =>
+    match ofHex h, n.toNat? with
+    | some bs, some k => "M " ++ readCut (bs.take k)
+    | _, _ => "bad-args"
   | _ => "bad-op"
 
 end CdnsVerif.Driver.Blk
